@@ -119,6 +119,15 @@ def check(rep, F, rule="bulk-operation-agreement"):
             rep.ok(rule, nm, "no override" if ov is None else "no default")
             continue
         n += 1
+        # the tables below judge one round of the loop; they speak for the operation only when the loop decides alone how far it goes: in an
+        # override that has a loop of its own, every path from the entry to a return passes the loop's head (a test placed before the loop -
+        # "nothing to skip unless the first byte is a space" - stops where the provided body goes on)
+        _lp = ov.natural_loops()
+        _heads = {h for h, b in (list(_lp.items()) if isinstance(_lp, dict) else list(_lp))}
+        if _heads:
+            _p = cfg.path_avoiding(ov, [0], _heads, set(cfg.return_blocks(ov)))
+            rep.check(_p is None, rule, nm + ":exit-before-the-loop", "the string back-end's %s can return without entering its loop (a test ahead of the loop decides): it stops "
+                      "on texts where the provided body goes on" % nm, site=ov.span, detail={"path": _p})
         try:
             tp, lp = loop_table(F, df)
             to, lo = loop_table(F, ov)
